@@ -86,11 +86,18 @@ CLAIMED = {
         "spelling (finite tables, enumerated completely); the lexer's keyword table is proved to classify every documented operator word, "
         "arithmetic word and clause keyword, in three casings; the BETWEEN guard of parse_cond is case-insensitive.",
    note="Not covered: whitespace-split invariance, bracket styles, optional tokens, root-option aliases, function aliases (symbolic lexing infeasible)."),
+
+ "C16": dict(engine="F", ref="5/C16",
+   technique="Kani on the string arms of function::get_value copied verbatim against shim Variant types, concrete witness arguments (bounded)",
+   text="SUBSTR / LENGTH / COALESCE / CONCAT / CONCAT_WS / REPLACE / TRIM arms, extracted verbatim each run, are executed by CBMC on 27 concrete "
+        "witnesses covering 1-based and negative positions, optional length, character (not byte) length, and ill-typed arguments "
+        "(empty value, no panic). Bounded stand-in: labelled as such.",
+   note="Concrete witnesses only. Not covered: other functions, composition, numeric formatting."),
 }
 PENDING = "no contract-based check built yet in this revision (planned: DESIGN.md section 5)"
 NOT_APPLICABLE = {
  
- "C16": PENDING,
+ 
  "C08": "GROUP BY partitioning lives in iterator-adapter closures over HashMap<Vec<String>, Vec<HashMap<String,String>>>: Verus rejects the adapters, CBMC does not finish two string-keyed rows; no closed fragment carries the partition property (DESIGN.md section 6)",
  "C17": "fault isolation is about read_dir/open failures, closed pipes and the process exit status (OS behaviour); the only closed fragment (error_count -> status) is proved under C10 and does not decide C17",
  "C18": "termination and at-most-once traversal over arbitrary symlink graphs is a whole-history property of visit_dir plus the OS namespace; ok_to_visit_dir needs a DirEntry that cannot be constructed by a verifier",
